@@ -106,15 +106,19 @@ fn cpu_fixtures() -> Vec<CpuFix> {
     ]
 }
 
-fn protection(perms: &[u8; 4]) -> Option<u32> {
+/// Acceptable protection encodings of a memory-map line.  Write-without-read has no exact equivalent in
+/// the format: any encoding that keeps the write permission, keeps (and does not invent) the execute
+/// permission is accepted there.
+fn protection(perms: &[u8; 4]) -> &'static [u32] {
     match (perms[0] == b'r', perms[1] == b'w', perms[2] == b'x') {
-        (false, false, false) => Some(0x01),
-        (true, false, false) => Some(0x02),
-        (true, true, false) => Some(0x04),
-        (false, false, true) => Some(0x10),
-        (true, false, true) => Some(0x20),
-        (true, true, true) => Some(0x40),
-        _ => None, // write without read: the format has no exact equivalent
+        (false, false, false) => &[0x01],
+        (true, false, false) => &[0x02],
+        (true, true, false) => &[0x04],
+        (false, false, true) => &[0x10],
+        (true, false, true) => &[0x20],
+        (true, true, true) => &[0x40],
+        (false, true, false) => &[0x04, 0x08],
+        (false, true, true) => &[0x40, 0x80],
     }
 }
 
@@ -225,6 +229,11 @@ pub fn run_case(c: &Case) -> Vec<(String, String)> {
     let mut p = Puppet::spawn_with(&argv_set(c.argv), env.as_deref());
     p.add_thread(Kind::Block);
     let window = p.pattern(2, "hole", "rw");
+    // every permission combination, private and shared, appears in the target's memory map
+    for prot in ["---", "r--", "-w-", "--x", "rw-", "r-x", "-wx", "rwx"] {
+        p.pattern(1, "none", prot);
+        let _ = p.cmd(&format!("shm 4096 {prot}"));
+    }
     let dir = "/verif/target/tmp";
     let _ = std::fs::create_dir_all(dir);
     for k in 0..c.fds {
@@ -345,11 +354,9 @@ pub fn run_case(c: &Case) -> Vec<(String, String)> {
                 fails.push(("meminfo-range".into(), format!("entry [{:#x}, +{:#x}) vs line [{:#x}, {:#x})", m.base, m.region_size, l.start, l.end)));
                 break;
             }
-            if let Some(pr) = protection(&l.perms) {
-                if m.prot != pr {
-                    fails.push(("meminfo-protection".into(), format!("line {} has protection {:#x}", l.text(), m.prot)));
-                    break;
-                }
+            if !protection(&l.perms).contains(&m.prot) {
+                fails.push(("meminfo-protection".into(), format!("line {} has protection {:#x}", l.text(), m.prot)));
+                break;
             }
             let want_ty = if l.private() { 0x20000 } else { 0x40000 };
             if m.ty != want_ty {
